@@ -102,6 +102,7 @@ Proof. exact redeploy_when_enough_proof. Qed.
 Print Assumptions redeploy_when_enough.
 
 Theorem published_is_newer : forall c l o,
+  q_install_superseded (qk c) = false ->
   completed (sto (exec c l)) <= completed (sto (fst (step c (exec c l) o))) /\
   (o_published (snd (step c (exec c l) o)) <> 0 ->
    completed (sto (fst (step c (exec c l) o))) = o_published (snd (step c (exec c l) o)) /\
@@ -109,17 +110,26 @@ Theorem published_is_newer : forall c l o,
 Proof. exact published_is_newer_proof. Qed.
 Print Assumptions published_is_newer.
 
+(* the checkpoint every deployment is told to restore (redeploy_from_latest: the store's current checkpoint) is the
+   GREATEST id published so far in the history, 0 if none - also when the file write of an older, fully acknowledged
+   checkpoint is slow (OHoldW / OReleaseW) and returns after a newer checkpoint was created, acknowledged and published *)
+Theorem current_is_max_published : forall c l,
+  q_install_superseded (qk c) = false ->
+  completed (sto (exec c l)) = max_pub (snd (run c init l)) 0.
+Proof. exact current_is_max_published_proof. Qed.
+Print Assumptions current_is_max_published.
+
 (* ---- checkpoints_resume (repaired code): after ANY history that leaves the job Running - whatever failed before,
    during a deployment or with a checkpoint OR SAVEPOINT in flight (the histories contain OSavepoint: a requested
    savepoint and a periodic checkpoint upgraded to one are pending snapshots like any other) - a tick, and equally a
    savepoint request, starts a fresh checkpoint on the runners of the running assembly (the tick acts only through a
    ticker that is alive: the model's OTick is a no-op otherwise, so the statement includes that the ticker is armed), and the acks of its members, in
-   any order, are all accepted and publish it. *)
+   any order, are all accepted and publish it ([holdw = false]: the storage does not hold the snapshot file write). *)
 Theorem checkpoints_resume : forall c l acks starter,
   q_keep_pending (qk c) = false -> q_splitters_accumulate (qk c) = false -> q_ticker_once (qk c) = false -> (0 < wc c)%nat ->
   starter = OTick \/ starter = OSavepoint ->
   let s := exec c l in
-  stat s = Running -> pend (sto s) = None ->
+  stat s = Running -> pend (sto s) = None -> holdw s = false ->
   let id := ctr (sto s) + 1 in
   NoDup acks -> (forall a, In a acks <-> member_ack s id a) ->
   let s1 := fst (step c s starter) in
@@ -157,7 +167,7 @@ Print Assumptions savepoint_folds.
 Theorem checkpoints_resume_inflight : forall c l p acks,
   q_keep_pending (qk c) = false -> q_keep_savepoint (qk c) = false -> q_splitters_accumulate (qk c) = false ->
   let s := exec c l in
-  stat s = Running -> pend (sto s) = Some p ->
+  stat s = Running -> pend (sto s) = Some p -> holdw s = false ->
   NoDup acks -> (forall a, In a acks <-> ack_of (p_id p) p a) -> acks <> [] ->
   (forall a, ack_of (p_id p) p a -> member_ack s (p_id p) a) /\
   pend (sto (fst (run c s acks))) = None /\ completed (sto (fst (run c s acks))) = p_id p /\
@@ -180,7 +190,7 @@ Print Assumptions operator_slot_resumes.
 (* ---- the code before the repairs violates checkpoints_resume (D18a, D30, D18b): computed witnesses, each
    replayed on the implementation by corpus/job/*.json *)
 Theorem checkpoints_resume_refuted_keep_pending :
-  let c := cfg_of (MkQuirks true false false false false false) in
+  let c := cfg_of (MkQuirks true false false false false false false) in
   let s := exec c hist_d18 in
   stat s = Running /\ a_ops s = [1] /\ a_srs s = [0] /\
   forall k, let s' := fst (run c s (repeat OTick k ++ [OAckOp 1 1; OAckSr 0 1; OAckOp 1 2; OAckSr 0 2; OTick])) in
@@ -189,7 +199,7 @@ Proof. exact checkpoints_resume_refuted_keep_pending_proof. Qed.
 Print Assumptions checkpoints_resume_refuted_keep_pending.
 
 Theorem checkpoints_resume_refuted_splitters :
-  let c := cfg_of (MkQuirks false true false false false false) in
+  let c := cfg_of (MkQuirks false true false false false false false) in
   let s := exec c hist_d30 in
   stat s = Running /\ a_ops s = [1] /\ a_srs s = [0] /\ pend (sto s) = None /\
   map o_res (snd (run c s [OTick; OAckOp 1 2; OAckSr 0 2])) = [0; 0; 2] /\
@@ -200,7 +210,7 @@ Print Assumptions checkpoints_resume_refuted_splitters.
 (* seeded C15-3 (an abort that spares savepoints): with a requested savepoint, or a checkpoint upgraded to one, in flight
    when the operator leaves, the new assembly runs but ticks start nothing, savepoint requests fail, and no ack completes anything *)
 Theorem checkpoints_resume_refuted_keep_savepoint :
-  let c := cfg_of (MkQuirks false false false true false false) in
+  let c := cfg_of (MkQuirks false false false true false false false) in
   forall h, h = hist_sp_a \/ h = hist_sp_b ->
   let s := exec c h in
   stat s = Running /\ a_ops s = [1] /\ a_srs s = [0] /\
@@ -211,12 +221,23 @@ Print Assumptions checkpoints_resume_refuted_keep_savepoint.
 
 (* seeded C15r2-1 (ticker created once only): after the first recovery the job is Running with a stopped ticker *)
 Theorem checkpoints_resume_refuted_ticker_once :
-  let c := cfg_of (MkQuirks false false false false true false) in
+  let c := cfg_of (MkQuirks false false false false true false false) in
   let s := exec c hist_tk in
   stat s = Running /\ a_ops s = [1] /\ a_srs s = [0] /\ pend (sto s) = None /\ completed (sto s) = 1 /\
   ticker s = 2 /\ step c s OTick = (s, mk_obs s []).
 Proof. exact checkpoints_resume_refuted_ticker_once_proof. Qed.
 Print Assumptions checkpoints_resume_refuted_ticker_once.
+
+(* seeded C15r6-3 (the written snapshot is installed over a newer published one) and the repaired code on the same history *)
+Theorem redeploy_from_latest_refuted_install_superseded :
+  let deps q := o_deps (last (snd (run (cfg_of q) init hist_slow_write)) (mk_obs init [])) in
+  map o_published (snd (run (cfg_of (MkQuirks false false false false false false true)) init hist_slow_write))
+    = [0; 0; 0; 0; 0; 0; 0; 0; 0; 2; 1; 0; 0] /\
+  deps (MkQuirks false false false false false false true) = [MkDep [1] [0] [1] true] /\
+  map o_published (snd (run (cfg_of current) init hist_slow_write)) = [0; 0; 0; 0; 0; 0; 0; 0; 0; 2; 0; 0; 0] /\
+  deps current = [MkDep [1] [0] [2] true].
+Proof. exact redeploy_from_latest_refuted_install_superseded_proof. Qed.
+Print Assumptions redeploy_from_latest_refuted_install_superseded.
 
 Theorem operator_slot_refuted :
   let o1 := fst (oper_barriers (oper_deploy original (MkOper [] None) [0; 1]) [0] 4 true) in
@@ -226,7 +247,7 @@ Print Assumptions operator_slot_refuted.
 
 (* seeded C15r5-3 (deploy clears only a half-aligned slot) and the repaired code on the same history *)
 Theorem operator_slot_refuted_keep_complete :
-  let q := MkQuirks false false false false false true in
+  let q := MkQuirks false false false false false true false in
   let o1 := fst (oper_barriers (oper_deploy q (MkOper [] None) [0; 1]) [0; 1] 4 false) in
   snd (oper_barriers (oper_deploy q (MkOper [] None) [0; 1]) [0; 1] 4 false) = [0; 5] /\
   o_slot o1 = Some (MkSlot 4 []) /\
